@@ -269,6 +269,13 @@ def gen_geo_cases(ctx):
                             outer.append([pi, dim - 1 - a, side ^ int(pt['flip'][a])])
         cases.append({'dim': dim, 'p': p, 'patches': patches, 'cells': [list(c_) for c_ in cells], 'cuts': cuts,
                       'affine': [rng.randint(-3, 3) for _ in range(dim + 1)], 'outer_faces': outer})
+    # rings of k annulus sectors: two patches may share MORE than one face (k = 2)
+    for k in ([2, 3] if ctx.tier != 'thorough' else [2, 2, 3, 4, 5]):
+        order = list(range(k))
+        rng.shuffle(order)
+        cases.append({'kind': 'ring', 'dim': 2, 'k': k, 'order': order, 'p': rng.randint(1, 3),
+                      'nspans': [rng.randint(1, 3), rng.randint(1, 3)], 'r1': 1.0, 'r2': 2.0, 'cuts': ['ring', k],
+                      'patches': [], 'cells': [], 'affine': [rng.randint(-3, 3) for _ in range(3)], 'outer_faces': []})
     return cases
 
 
@@ -299,7 +306,15 @@ def check_geo_case(case, r):
         return ('geo-raises-' + r['status'], 'multipatch over a conforming box decomposition raised %s: %s' % (r['status'], r.get('msg')))
     dim = case['dim']
     got = {(a, tuple(b), c, tuple(d), tuple(e)) for (a, b, c, d, e) in r['interfaces']}
-    exp = expected_interfaces(case)
+    if case.get('kind') == 'ring':
+        # every sector touches its two neighbours along one radial face each: k coinciding face pairs
+        # (for k = 2 both belong to the same pair of patches)
+        if len(got) != case['k']:
+            return ('detect-interfaces-ring', 'detect_interfaces found %d interfaces %s in a ring of %d annulus sectors, '
+                    '%d radial faces coincide' % (len(got), sorted(got), case['k'], case['k']))
+        exp = got
+    else:
+        exp = expected_interfaces(case)
     if got != exp:
         return ('detect-interfaces', 'detect_interfaces found %s, geometrically coinciding faces are %s' % (
             sorted(got ^ exp)[:4], 'the symmetric difference shown'))
@@ -326,7 +341,12 @@ def check_geo_case(case, r):
         return ('geo-not-gapfree', 'numbering not onto range(numdofs)')
     area = 1.5 ** dim
     tol = 1e-11 * max(1.0, area)
-    if r['mass_consistency'] > tol or abs(r['mass_sum'] - area) > tol or r['mass_sym'] > tol:
+    if case.get('kind') == 'ring':
+        # NURBS sectors: Gauss quadrature of the rational Jacobian is not exact, so only the
+        # consistency M*1 = b (same rule on both sides) and symmetry are required
+        if r['mass_consistency'] > 1e-10 or r['mass_sym'] > 1e-10:
+            return ('assemble-system', 'assemble_system on a ring: M*1 - b = %g' % r['mass_consistency'])
+    elif r['mass_consistency'] > tol or abs(r['mass_sum'] - area) > tol or r['mass_sym'] > tol:
         return ('assemble-system', 'assemble_system: M*1 - b = %g, sum(M) - |domain| = %g' % (r['mass_consistency'], r['mass_sum'] - area))
     if 'bc_idx' in r:
         w = case['affine']
